@@ -11,7 +11,7 @@ import ast
 from ..program import AnalysisError, walk_local, dotted
 from ..analysis import Spec, src, const_value
 from ..cfg import node_contains_call
-from ..rules import (inside, before, GWF, EXC, mpt, need_func, need_call, stores_to,
+from ..rules import (inside, before, parent_map, is_access_path, GWF, EXC, mpt, need_func, need_call, stores_to,
                      substitute_locals, chained_assign_value, kw, is_const,
                      eval_atom, eval_cond, UNKNOWN)
 from . import common, c06
@@ -36,6 +36,7 @@ def run(prog, an, rep):
         build_gate, outcome, recursive_lookup_literals, lookup_args,
         process_selection, force_merge_wiring, is_needed_rules,
         merge_queues_args, nothing_moves_without_selection,
+        lookup_loop_exits, in_sync_pairs,
         version_keys, in_sync_before_update, selection_reads_its_argument])
 
 
@@ -148,6 +149,10 @@ def selection_reads_its_argument(prog, an, rep):
                   'requests removed by the status lookup come back' % f.name)
 
 
+def in_sync_pairs(prog, an, rep):
+    common.in_sync_pairs(prog, an, rep, 'C03')
+
+
 def build_gate(prog, an, rep):
     common.build_gate_dominates(prog, an, rep, 'C03')
 
@@ -156,15 +161,28 @@ def outcome(prog, an, rep):
     c06.outcome_table(prog, an, rep, pid='C03')
 
 
-def _lookup_assignments(an, f):
-    """[(assign stmt, var, call)] for X = <...>.get_build_status(...)"""
+def _lookup_sites(an, f):
+    """[(where, start node, env key, call)] for every look-up of a queue
+    build status: `X = <...>.get_build_status(...)` (the walk starts after
+    the assignment, X carries the status) or the call written inside a
+    condition (the walk starts at that test, the call text carries it)."""
+    c = an.cfg(f)
     out = []
+    taken = set()
     for n in walk_local(f.node, include_root=False):
         if isinstance(n, ast.Assign) and len(n.targets) == 1 and \
                 isinstance(n.targets[0], ast.Name) and \
                 isinstance(n.value, ast.Call) and \
                 an.call_matches(f, n.value, Spec.method('get_build_status')):
-            out.append((n, n.targets[0].id, n.value))
+            out.append((n, c.done_node[id(n)], n.targets[0].id, n.value))
+            taken.add(id(n.value))
+    for t in sorted((n for n in c.nodes.values() if n.kind == 'test'),
+                    key=lambda n: n.id):
+        for x in ast.walk(t.ast):
+            if isinstance(x, ast.Call) and id(x) not in taken and \
+                    an.call_matches(f, x, Spec.method('get_build_status')):
+                out.append((t.ast, t.id, src(x), x))
+                taken.add(id(x))
     return out
 
 
@@ -175,12 +193,11 @@ def recursive_lookup_literals(prog, an, rep):
     R = 'C03.EXH.queue-status'
     f = need_func(an, BR + '.QueueCollection._recursive_lookup')
     c = an.cfg(f)
-    looks = _lookup_assignments(an, f)
+    looks = _lookup_sites(an, f)
     if len(looks) != 1:
-        raise AnalysisError('anchor-missing status lookup assignment in %s'
+        raise AnalysisError('anchor-missing status lookup in %s'
                             % f.qname)
-    st, var, call = looks[0]
-    start = c.done_node[id(st)]
+    st, start, var, call = looks[0]
     for lit in DOMAIN + ('SOMETHING_ELSE',):
         rep.evaluated()
         labels = _walk_marks(c, start, {var: lit})
@@ -194,6 +211,49 @@ def recursive_lookup_literals(prog, an, rep):
         rep.check(ok, R, '%s: %s -> %s' % (
             f.qname, lit, 'pass' if lit == 'SUCCESSFUL' else 'drop'),
             f.where(st), msg, detail=str(sorted(labels)))
+
+
+def lookup_loop_exits(prog, an, rep):
+    """The walk over the queues stops (break / return inside the loop that
+    looks the statuses up) only at a queue whose build is not SUCCESSFUL:
+    an empty or unknown queue is skipped, it does not end the walk with
+    "everything passed" while later queues were never looked up."""
+    R = 'C03.MPT.queue-walk'
+    f = need_func(an, BR + '.QueueCollection._recursive_lookup')
+    c = an.cfg(f)
+    looks = _lookup_sites(an, f)
+    if len(looks) != 1:
+        raise AnalysisError('anchor-missing status lookup in %s' % f.qname)
+    st, start, var, call = looks[0]
+    pm = parent_map(f.node)
+    loop = st
+    while loop in pm and not isinstance(loop, (ast.For, ast.While)):
+        loop = pm[loop]
+    if not isinstance(loop, (ast.For, ast.While)):
+        raise AnalysisError('anchor-missing loop around the status lookup '
+                            'in %s' % f.qname)
+
+    def failing(e):
+        return isinstance(e, ast.Compare) and len(e.ops) == 1 and \
+            isinstance(e.ops[0], ast.NotEq) and \
+            is_const(e.comparators[0], 'SUCCESSFUL') and \
+            'get_build_status(' in src(substitute_locals(f, e.left))
+    gates = an.branch_nodes(f, failing, True)
+    exits = [n for n in c.nodes.values()
+             if n.kind in ('break', 'return') and inside(loop, n.ast) and
+             not any(isinstance(up, (ast.For, ast.While)) and up is not loop
+                     and inside(loop, up) and inside(up, n.ast)
+                     and n.kind == 'break' for up in ast.walk(loop))]
+    rep.floor('C03 exits of the queue walk', len(exits), 1)
+    for x in exits:
+        rep.evaluated()
+        ok, path = c.must_pass(gates, x.id)
+        rep.check(ok and bool(gates), R, f.qname + ': the walk stops only '
+                  'at a queue that is not SUCCESSFUL', f.where(x),
+                  'the walk over the queues can stop before a status other '
+                  'than SUCCESSFUL was seen: the queues after it are never '
+                  'looked up and are merged as they are',
+                  path=c.describe_path(path))
 
 
 def _walk_marks(c, start, env):
@@ -235,15 +295,15 @@ def lookup_args(prog, an, rep):
     R = 'C03.ARG.queue-lookup'
     for q in (BR + '.QueueCollection._recursive_lookup',):
         f = need_func(an, q)
-        for st, var, call in _lookup_assignments(an, f):
+        for st, _, var, call in _lookup_sites(an, f):
             rep.evaluated()
             rev = call.args[0] if call.args else None
             key = call.args[1] if len(call.args) > 1 else None
             ok = isinstance(rev, ast.Call) and \
                 isinstance(rev.func, ast.Attribute) and \
                 rev.func.attr == 'get_latest_commit' and \
-                isinstance(rev.func.value, ast.Name)
-            qv = rev.func.value.id if ok else None
+                is_access_path(rev.func.value)
+            qv = src(substitute_locals(f, rev.func.value)) if ok else None
             rep.check(ok, R, f.qname + ': revision is the queue tip',
                       f.where(call), 'revision %s is not '
                       '<qint>.get_latest_commit()' % (src(rev) if rev
@@ -258,8 +318,8 @@ def lookup_args(prog, an, rep):
                        if isinstance(n, ast.Assign) and
                        isinstance(n.value, ast.Attribute) and
                        n.value.attr == 'pr_id']
-                good = all(isinstance(a.value.value, ast.Name) and
-                           a.value.value.id == qv for a in ids) and ids
+                good = all(src(substitute_locals(f, a.value.value)) == qv
+                           for a in ids) and ids
                 rep.check(bool(good), R, f.qname + ': failed pr id belongs '
                           'to the looked-up branch', f.where(call),
                           'the pull request marked as failed is not the one '
